@@ -22,12 +22,19 @@ Qed.
 (** ** the accepted constructs, checked while replaying the validator's height computation *)
 Definition ctl_ok (nl : Z) (cx : cctx) (v : vstate) (op : opcode) : bool :=
   match op with
-  | OEnd | OElse => true
-  | OBlock None => match v_unreach v with None => (v_opds v =? 0)%nat | Some _ => false end
+  | OEnd =>     (* the end of a value-typed block must be reachable (its body does not end with a jump) *)
+      match v_ctrls v with
+      | f :: _ => match vf_end f, v_unreach v with Some _, Some _ => false | _, _ => true end
+      | [] => true
+      end
+  | OElse => true
+  | OBlock _ => match v_unreach v with None => (v_opds v =? 0)%nat | Some _ => false end
   | OIf None => match v_unreach v with None => (v_opds v =? 1)%nat | Some _ => false end
   | OLoop None => match v_unreach v with None => (v_opds v =? 0)%nat | Some _ => false end
-  | OBasic (BBr _) | OBasic (BBrIf _) | OBasic BUnreachable => match v_unreach v with None => true | Some _ => false end
-  | OBasic BReturn => match v_unreach v, cx_return cx, v_ctrls v with None, None, _ :: _ => true | _, _, _ => false end
+  | OBasic (BBr _) | OBasic BUnreachable => match v_unreach v with None => true | Some _ => false end
+  | OBasic (BBrIf l) => match v_unreach v, label_type v l with None, Some None => true | _, _ => false end
+  | OBasic BReturn => match v_unreach v, cx_return cx, last (map (fun f => Some (vf_label f)) (v_ctrls v)) None with
+                      | None, None, Some None => true | _, _, _ => false end
   | OBasic b => match v_unreach v with None => straight_ok b && locals_in nl b | Some _ => false end
   | _ => false
   end.
@@ -191,6 +198,18 @@ Definition ready (s : cstate) (is : list instr) : Prop := c_last s = None \/ ctl
 Lemma bp_sub_cons_inv j b b' : bp_sub (j :: b) b' -> exists j' b'', b' = j' :: b'' /\ bp_sub b b''.
 Proof. intros H. inversion H; subst. eauto. Qed.
 
+Lemma bp_sub_head_nores j0 b0 b1 : bp_sub (j0 :: b0) b1 -> no_res j0 -> match b1 with j :: _ => no_res j | [] => True end.
+Proof.
+  intros H Hn. inversion H as [|? j1 ? ? [(locs & add & res & E1 & E2)|(pos & E1 & E2)]]; subst; cbn; auto.
+Qed.
+
+Lemma bp_sub_head_val l res b0 b1 : bp_sub (JUnknown l res :: b0) b1 ->
+  exists add b1', b1 = JUnknown (l ++ add) res :: b1' /\ bp_sub b0 b1'.
+Proof.
+  intros H. inversion H as [|? j1 ? b1' [(locs & add & r0 & E1 & E2)|(pos & E1 & E2)] Ht]; subst; [|discriminate E1].
+  inversion E1; subst. exists add, b1'. auto.
+Qed.
+
 Lemma isize_pos i : (1 <= isize i)%nat.
 Proof. destruct i; cbn; lia. Qed.
 
@@ -218,7 +237,7 @@ Proof.
       assert (I1 : inv nl s1 v1).
       { constructor; auto.
         - eapply bpwf_same_locs; [apply (i_bp _ _ _ I)|rewrite Ebp; reflexivity|apply ext_off; exact X1].
-        - rewrite Ectrl, Ebp. apply (i_frames _ _ _ I).
+        - rewrite Ectrl, Ebp. eapply frames_mono; [apply Mo|apply (i_frames _ _ _ I)].
         - left. exact Hu1. }
       assert (P1 : pres nl s s1 v1).
       { constructor; auto. rewrite Ebp. eapply bp_sub_refl. apply (i_frames _ _ _ I). }
@@ -233,7 +252,11 @@ Proof.
         rewrite (lvl_unreach_nil nl cx rest v1 Hu1 Hl') in Hc'. cbn in Hc'. inversion Hc'; subst v' s'.
         constructor; auto. apply mono_eq; auto. rewrite O2. eapply bp_sub_refl. apply (i_frames _ _ _ I).
       * (* br *)
-        destruct (br_target _ _ _ _ Ev) as (fk & Ek). destruct (bp_target nl s v l fk I Ek) as [(locs & Enth)|(pos & Enth)].
+        destruct (br_target _ _ _ _ Ev) as (fk & Ek). destruct (bp_target nl s v l fk I Ek) as [(locs & [rr|] & Enth)|(pos & Enth)].
+        -- destruct (target_label_some _ _ _ _ l fk locs rr (i_frames _ _ _ I) Ek Enth) as (t0 & d & _ & -> & _).
+           destruct (op_br_val nl cx s v v1 s1 l locs d I Hu Enth Ev Eh) as (p & st & Es & Pp & Hd & O1 & O2 & O3 & O4 & O5 & O6 & I1 & Hu1 & X1).
+           rewrite (lvl_unreach_nil nl cx rest v1 Hu1 Hl') in Hc'. cbn in Hc'. inversion Hc'; subst v' s'.
+           constructor; auto. apply mono_eq; auto. rewrite O2. eapply bp_sub_update; eauto. apply (i_frames _ _ _ I).
         -- destruct (op_br nl cx s v v1 s1 l locs I Hu Enth Ev Eh) as (O1 & O2 & O3 & O4 & O5 & O6 & I1 & Hu1 & X1).
            rewrite (lvl_unreach_nil nl cx rest v1 Hu1 Hl') in Hc'. cbn in Hc'. inversion Hc'; subst v' s'.
            constructor; auto. apply mono_eq; auto. rewrite O2. eapply bp_sub_update; eauto. apply (i_frames _ _ _ I).
@@ -241,7 +264,9 @@ Proof.
            rewrite (lvl_unreach_nil nl cx rest v1 Hu1 Hl') in Hc'. cbn in Hc'. inversion Hc'; subst v' s'.
            constructor; auto. apply mono_eq; auto. rewrite O2. eapply bp_sub_refl. apply (i_frames _ _ _ I).
       * (* br_if *)
-        destruct (br_if_target _ _ _ _ Ev) as (fk & Ek). destruct (bp_target nl s v l fk I Ek) as [(locs & Enth)|(pos & Enth)].
+        destruct (br_if_target _ _ _ _ Ev) as (fk & Ek). destruct (bp_target nl s v l fk I Ek) as [(locs & [rr|] & Enth)|(pos & Enth)].
+        -- exfalso. destruct (target_label_some _ _ _ _ l fk locs rr (i_frames _ _ _ I) Ek Enth) as (t0 & d & Fl & _).
+           unfold ctl_ok in Hk. rewrite Hu in Hk. unfold label_type in Hk. rewrite Ek, Fl in Hk. discriminate.
         -- destruct (op_br_if nl cx s v v1 s1 l locs I Hu Enth Ev Eh) as (p & st & Es & Pp & O1 & O2 & O3 & O4 & O5 & O6 & I1 & Hu1 & X1).
            assert (P1 : pres nl s s1 v1).
            { constructor; auto. apply mono_eq; auto. rewrite O2. eapply bp_sub_update; eauto. apply (i_frames _ _ _ I). }
@@ -252,7 +277,8 @@ Proof.
            eapply pres_trans; [exact P1|]. eapply (IH rest); eauto. { cbn [lsize isize] in Hn. lia. } left. exact O6.
       * (* return *)
         unfold ctl_ok in Hk. rewrite Hu in Hk. destruct (cx_return cx) eqn:Hret; [discriminate|].
-        assert (Hne : v_ctrls v <> []) by (destruct (v_ctrls v); [discriminate|discriminate]).
+        assert (Hne : last (map (fun f => Some (vf_label f)) (v_ctrls v)) None = Some None).
+        { destruct (last (map (fun f => Some (vf_label f)) (v_ctrls v)) None) as [[?|]|]; try discriminate. reflexivity. }
         destruct (op_return nl cx s v v1 s1 I Hu Hret Hne Ev Eh) as (O1 & O2 & O3 & O4 & O5 & O6 & I1 & Hu1 & X1).
         rewrite (lvl_unreach_nil nl cx rest v1 Hu1 Hl') in Hc'. cbn in Hc'. inversion Hc'; subst v' s'.
         constructor; auto. apply mono_eq; auto. rewrite O2. eapply bp_sub_refl. apply (i_frames _ _ _ I).
@@ -260,15 +286,34 @@ Proof.
     rewrite flatten_block in Hc, Hl.
     destruct (compile_cons _ _ _ _ _ _ _ Hc) as (va & sa & Ev & Eh & Hc').
     rewrite (reach_of_none v Hu) in Eh. destruct (lvl_cons _ _ _ _ _ _ Hl Ev) as [Hk Hl'].
-    destruct bt; [discriminate|]. unfold ctl_ok in Hk. rewrite Hu in Hk. apply Nat.eqb_eq in Hk.
+    unfold ctl_ok in Hk. rewrite Hu in Hk. apply Nat.eqb_eq in Hk. cbn [lsize] in Hn. rewrite isize_block in Hn.
+    destruct bt as [t|].
+    { (* block with a result *)
+      destruct (op_block_val nl cx s v va sa t I Hu Hk Ev Eh) as (d & Hd & A1 & A2 & A3 & Ma & A7 & Ia & Hua).
+      destruct (compile_app_inv _ _ _ _ _ _ _ Hc') as (vb & sb & Hcb & Hc'').
+      rewrite (lvl_app nl cx _ _ _ _ _ _ Hcb) in Hl'. apply andb_true_iff in Hl'. destruct Hl' as [Hlb Hl''].
+      assert (Pb : pres nl sa sb vb) by (eapply (IH body); eauto; [lia|left; exact A7]).
+      destruct (compile_cons _ _ _ _ _ _ _ Hc'') as (vc & sc & Evc & Ehc & Hcr).
+      destruct (lvl_cons _ _ _ _ _ _ Hl'' Evc) as [_ Hlr].
+      pose proof (p_bp _ _ _ _ Pb) as Hb. rewrite A2 in Hb. destruct (bp_sub_head_val _ _ _ _ Hb) as (add & b'' & Ebp & Hb').
+      destruct (op_end_val nl cx sb vb vc sc _ d b'' (p_inv _ _ _ _ Pb) Ebp Evc Ehc)
+        as (tc & E2 & E3 & E5 & E6 & E7 & X3 & Ecur & Rs & Hnth & Ic & Huc & Hd' & Hcase).
+      assert (Pr : pres nl sc s' v') by (eapply (IH rest); eauto; [lia|left; exact E7]).
+      constructor.
+      - eapply ext_trans; [|eapply ext_trans; [apply (p_ext _ _ _ _ Pb)|eapply ext_trans; [exact X3|apply (p_ext _ _ _ _ Pr)]]].
+        eapply (ext_same_locs s sa []); [rewrite app_nil_r; exact A1|rewrite A2; reflexivity].
+      - eapply mono_trans; [exact Ma|]. eapply mono_trans; [apply (p_mono _ _ _ _ Pb)|].
+        eapply mono_trans; [apply (mono_eq sb sc); auto|apply (p_mono _ _ _ _ Pr)].
+      - apply (p_inv _ _ _ _ Pr).
+      - eapply bp_sub_trans; [exact Hb'|]. rewrite <- E2. apply (p_bp _ _ _ _ Pr). }
     destruct (op_block nl cx s v va sa I Hu Hk Ev Eh) as (A1 & A2 & (A3 & A4 & A5 & A6) & A7 & Ia & Hua).
     destruct (compile_app_inv _ _ _ _ _ _ _ Hc') as (vb & sb & Hcb & Hc'').
     rewrite (lvl_app nl cx _ _ _ _ _ _ Hcb) in Hl'. apply andb_true_iff in Hl'. destruct Hl' as [Hlb Hl''].
-    cbn [lsize] in Hn. rewrite isize_block in Hn.
     assert (Pb : pres nl sa sb vb) by (eapply (IH body); eauto; [lia|left; exact A7]).
     destruct (compile_cons _ _ _ _ _ _ _ Hc'') as (vc & sc & Evc & Ehc & Hcr).
     destruct (lvl_cons _ _ _ _ _ _ Hl'' Evc) as [_ Hlr].
-    destruct (op_end nl cx sb vb vc sc (p_inv _ _ _ _ Pb) Evc Ehc) as (locs & bp' & E1 & E2 & E3 & E4 & E5 & E6 & E7 & E8 & X3 & Rs & Ic & Huc).
+    assert (Hnr : match c_bp sb with j :: _ => no_res j | [] => True end) by (eapply bp_sub_head_nores; [rewrite <- A2; apply (p_bp _ _ _ _ Pb)|exact Logic.I]).
+    destruct (op_end nl cx sb vb vc sc (p_inv _ _ _ _ Pb) Hnr Evc Ehc) as (locs & bp' & E1 & E2 & E3 & E4 & E5 & E6 & E7 & E8 & X3 & Rs & Ic & Huc).
     assert (Pr : pres nl sc s' v') by (eapply (IH rest); eauto; [lia|left; exact E7]).
     constructor.
     + eapply ext_trans; [|eapply ext_trans; [apply (p_ext _ _ _ _ Pb)|eapply ext_trans; [exact X3|apply (p_ext _ _ _ _ Pr)]]].
@@ -290,7 +335,8 @@ Proof.
     assert (Pb : pres nl sa sb vb) by (eapply (IH body); eauto; [lia|left; exact A7]).
     destruct (compile_cons _ _ _ _ _ _ _ Hc'') as (vc & sc & Evc & Ehc & Hcr).
     destruct (lvl_cons _ _ _ _ _ _ Hl'' Evc) as [_ Hlr].
-    destruct (op_end nl cx sb vb vc sc (p_inv _ _ _ _ Pb) Evc Ehc) as (locs & bp' & E1 & E2 & E3 & E4 & E5 & E6 & E7 & E8 & X3 & Rs & Ic & Huc).
+    assert (Hnr : match c_bp sb with j :: _ => no_res j | [] => True end) by (eapply bp_sub_head_nores; [rewrite <- A2; apply (p_bp _ _ _ _ Pb)|exact Logic.I]).
+    destruct (op_end nl cx sb vb vc sc (p_inv _ _ _ _ Pb) Hnr Evc Ehc) as (locs & bp' & E1 & E2 & E3 & E4 & E5 & E6 & E7 & E8 & X3 & Rs & Ic & Huc).
     assert (Pr : pres nl sc s' v') by (eapply (IH rest); eauto; [lia|left; exact E7]).
     constructor.
     + eapply ext_trans; [|eapply ext_trans; [apply (p_ext _ _ _ _ Pb)|eapply ext_trans; [exact X3|apply (p_ext _ _ _ _ Pr)]]].
@@ -313,7 +359,8 @@ Proof.
       assert (Pb : pres nl sa sb vb) by (eapply (IH thn); eauto; [lia|left; exact A6]).
       destruct (compile_cons _ _ _ _ _ _ _ Hc'') as (vc & sc & Evc & Ehc & Hcr).
       destruct (lvl_cons _ _ _ _ _ _ Hl'' Evc) as [_ Hlr].
-      destruct (op_end nl cx sb vb vc sc (p_inv _ _ _ _ Pb) Evc Ehc) as (locs & bp' & E1 & E2 & E3 & E4 & E5 & E6 & E7 & E8 & X3 & Rs & Ic & Huc).
+      assert (Hnr : match c_bp sb with j :: _ => no_res j | [] => True end) by (eapply bp_sub_head_nores; [rewrite <- A2; apply (p_bp _ _ _ _ Pb)|exact Logic.I]).
+    destruct (op_end nl cx sb vb vc sc (p_inv _ _ _ _ Pb) Hnr Evc Ehc) as (locs & bp' & E1 & E2 & E3 & E4 & E5 & E6 & E7 & E8 & X3 & Rs & Ic & Huc).
       assert (Pr : pres nl sc s' v') by (eapply (IH rest); eauto; [lia|left; exact E7]).
       constructor.
       * eapply ext_trans; [exact Xa|eapply ext_trans; [apply (p_ext _ _ _ _ Pb)|eapply ext_trans; [exact X3|apply (p_ext _ _ _ _ Pr)]]].
@@ -333,14 +380,16 @@ Proof.
       assert (Pb : pres nl sa sb vb) by (eapply (IH thn); eauto; [lia|left; exact A6]).
       destruct (compile_cons _ _ _ _ _ _ _ Hc'') as (vc & sc & Evc & Ehc & Hcr).
       destruct (lvl_cons _ _ _ _ _ _ Hl'' Evc) as [_ Hlr].
-      destruct (op_else nl cx sb vb vc sc (p_inv _ _ _ _ Pb) Evc Ehc)
+      assert (Hnr : match c_bp sb with j :: _ => no_res j | [] => True end) by (eapply bp_sub_head_nores; [rewrite <- A2; apply (p_bp _ _ _ _ Pb)|exact Logic.I]).
+      destruct (op_else nl cx sb vb vc sc (p_inv _ _ _ _ Pb) Hnr Evc Ehc)
         as (first & more & bp' & pre & E1 & E2 & Lp & E3 & E4 & E5 & E6 & E7 & E8 & X3 & Rs & Ic & Huc).
       destruct (compile_app_inv _ _ _ _ _ _ _ Hcr) as (vd & sd & Hcd & Hcr').
       rewrite (lvl_app nl cx _ _ _ _ _ _ Hcd) in Hlr. apply andb_true_iff in Hlr. destruct Hlr as [Hld Hlr'].
       assert (Pd : pres nl sc sd vd) by (eapply (IH (e :: els)); eauto; [lia|left; exact E8]).
       destruct (compile_cons _ _ _ _ _ _ _ Hcr') as (ve & se & Eve & Ehe & Hcr'').
       destruct (lvl_cons _ _ _ _ _ _ Hlr' Eve) as [_ Hlr''].
-      destruct (op_end nl cx sd vd ve se (p_inv _ _ _ _ Pd) Eve Ehe) as (locs & bp'' & G1 & G2 & G3 & G4 & G5 & G6 & G7 & G8 & X5 & Rs' & Ie & Hue).
+      assert (Hnr' : match c_bp sd with j :: _ => no_res j | [] => True end) by (eapply bp_sub_head_nores; [rewrite <- E2; apply (p_bp _ _ _ _ Pd)|exact Logic.I]).
+      destruct (op_end nl cx sd vd ve se (p_inv _ _ _ _ Pd) Hnr' Eve Ehe) as (locs & bp'' & G1 & G2 & G3 & G4 & G5 & G6 & G7 & G8 & X5 & Rs' & Ie & Hue).
       assert (Pr : pres nl se s' v') by (eapply (IH rest); eauto; [lia|left; exact G7]).
       constructor.
       * eapply ext_trans; [exact Xa|]. eapply ext_trans; [apply (p_ext _ _ _ _ Pb)|]. eapply ext_trans; [exact X3|].
